@@ -482,7 +482,24 @@ def explore(hfn, params, modules, tier="quick", max_paths=2000, slow_s=60, valid
         if summary["assumptions_sat"] is None and not aborted:
             # vacuity (a): the assumptions of the first complete path are satisfiable
             at = smt.Atomizer(run.context_terms())
-            v, _, _ = solver.check(smt.print_smt(at.out + at.axioms), (), fast_ms=FAST_MS, slow_s=20, tag="assumptions-sat")
+            v, _, _ = solver.check(smt.print_smt(at.out + at.axioms), (), fast_ms=FAST_MS, slow_s=0, tag="assumptions-sat")
+            if v == "unknown":
+                # a concrete witness is as good as the solver's sat: evaluate the context at random points
+                rngw = random.Random(seed + 101)
+                ctx_terms = run.context_terms()
+                for _ in range(40):
+                    envw = {}
+                    for name, (lo, hi, ls, hs, nz) in g.declared.items():
+                        a_ = lo if lo is not None else (hi - 3.0 if hi is not None else -1.5)
+                        b_ = hi if hi is not None else (lo + 3.0 if lo is not None else 1.5)
+                        envw[name] = a_ + (b_ - a_) * (0.05 + 0.9 * rngw.random())
+                    try:
+                        vals = T.evaluate(ctx_terms, envw)
+                    except T.EvalError:
+                        continue
+                    if all(vals[t.id] for t in ctx_terms):
+                        v = "sat"
+                        break
             summary["assumptions_sat"] = v
     # ---------------- encoding validation: symbolic terms vs the untouched float code at random points
     rng = random.Random(seed * 7919 + 13)
